@@ -119,6 +119,8 @@ def gen_level(rng, engine: str, bounds, lsc: dict | None = None, stack=None, max
             lv["sigma0"] = rng.choice([None, 1.0, 0.5])
     if engine == "local_maxiter":
         lv["maxiter"] = rng.randint(1, 6)
+    if engine in ("local", "local_maxiter") and rng.random() < 0.3:
+        lv["method"] = rng.choice(["l-bfgs-b", "L-BFGS-B", "l-bfgs-b"])  # scipy accepts any capitalisation of the method name
     if engine == "custom":
         lv["pop"] = rng.randint(3, 10)
     return lv
